@@ -212,6 +212,46 @@ def sequential_search(R, plain, drv, diverged):
                              pool=list(run["case"]["pool"]), violations=diffs[:4]))
 
 
+def fault_termination(R, drv):
+    """"when an entry fails the operation still terminates with an error": the k-th file-system mutating call of a directory commit
+    (files, a sub-directory, manifests) is failed with EIO / EMFILE, for every k, with the default pools: the command comes back
+    (non-zero) within its time limit every time"""
+    import errno, subprocess, s2
+    dud = vlib.build_dud()
+    stepper = vlib.build_sysstep()
+    b3 = s1.B3(drv)
+    viol = []
+    try:
+        for strat in ("c", "l"):
+            init = [("dir", b"tree"), ("dir", b"tree/sub")] + [("file", b"tree/f%d.bin" % j, "g:%d:%d" % (j, 40 + j)) for j in range(6)] + \
+                   [("file", b"tree/sub/g%d.bin" % j, "g:%d:%d" % (50 + j, 9)) for j in range(3)]
+            c = dict(id="fault-term-" + strat, init=init, stages=[(b"s.yaml", dict(cmd=b"", wd=b".", out=[(b"tree", "d")]))], ops=[], cache="rel")
+            sc = s2.Scenario(dud, c, b3, sequential=False)
+            try:
+                cmd = ["commit"] + (["--copy"] if strat == "c" else [])
+                rc, raw, se = sc.run(stepper, cmd)
+                n = len([l for l in raw if l.split("\t")[0].isdigit()])
+                for k in range(1, n + 1):
+                    for en in (errno.EIO, errno.EMFILE):
+                        sc.restore()
+                        R.count("fault-term-%s-%d-%d" % (strat, k, en), True)
+                        try:
+                            rc2, raw2, se2 = sc.run(stepper, cmd, fault=(k, en), timeout=25)
+                        except subprocess.TimeoutExpired:
+                            viol.append("`dud %s` with its %d-th mutating call (of %d) failing with %s did not come back within 25 s" % (
+                                " ".join(cmd), k, n, errno.errorcode[en]))
+                            subprocess.run(["pkill", "-9", "-f", sc.proj.dud_bin], stdout=subprocess.DEVNULL, stderr=subprocess.DEVNULL)
+                            break
+                    if viol:
+                        break
+            finally:
+                sc.cleanup()
+    finally:
+        b3.close()
+    if viol:
+        R.violation(dict(kind="property-violated-on-implementation", scenario="directory commit with one failing file-system call", violations=viol[:4]))
+
+
 def mode_dependence(R):
     """everything a commit creates outside the object files — stage file, index, cache directories — gets the permission bits the
     process umask allows, with one worker and with the default pools alike (a wide directory: many workers create cache directories
@@ -343,6 +383,7 @@ def main(tier, replay=None):
     if not replay:
         schedule_dependence(R, drv)
     mode_dependence(R)
+    fault_termination(R, drv)
     R.absorb_audit(vlib.lean_audit(PROP))
     if tier == "thorough":
         ok, log = vlib.leanchecker(["DudModel.Props.C13"])
